@@ -8,6 +8,7 @@ from sa.rules import ranges as RG
 from sa.rules import synth_rules as SY
 from sa.rules import maybe_rules as MB
 from sa.rules import window_rules as WN
+from sa.rules import cpp_rules as CC
 
 
 def main(tier):
@@ -35,6 +36,7 @@ def main(tier):
     chk.run("R-CONSTFOLD", R.constfold, r, floor=30)
     chk.run("R-OPCHAIN", C.opchain_cpp, r, cx.cpp, floor=20)
     chk.run("R-KLEENE", MB.kleene, cx.cpp, floor=36)
+    chk.run("R-MIRROR", CC.mirror, cx.cpp, floor=8)
     chk.run("R-ARRAYELEM", WN.arrayelem, cx.cpp, floor=6)
     chk.run("R-DOLLAR", B.dollar, r, floor=10)
     chk.run("R-ACCESSOR", B.accessor, r, floor=5)
@@ -43,5 +45,6 @@ def main(tier):
     chk.run("R-RTSYMS", C.rtsyms, r, cx.cpp, cx.templates, floor=10)
     chk.run("R-SYNTH", SY.synth, r, floor=12)
     chk.run("R-INTERMEDIATE", RG.intermediate, r, floor=2)
+    chk.run("R-RENDERCONST", RG.renderconst, r, floor=30)
     chk.run("R-INTRANGE", RG.intrange, r, parts=('backend',), floor=4)
     return chk.finish()
